@@ -202,7 +202,8 @@ def ret_cases(tier, seed):
         for i in range(k):
             for j in range(i + 1, k):
                 if corr[i][j] != 0:
-                    f.set_correlation(ids[i], ids[j], corr[i][j] / float(den * den))
+                    x, y = (ids[i], ids[j]) if rng.random() < 0.5 else (ids[j], ids[i])    # a pair may be named in either order
+                    f.set_correlation(x, y, corr[i][j] / float(den * den))
         f._np_prng = _StubNp(zs)
         steps = len(zs) * 2
         prices = {i: f.get_fundamental_prices(market_id=ids[i], times=range(steps + 1)) for i in range(k)}
@@ -229,7 +230,7 @@ def stat_cases(tier, seed):
         for m in range(2):
             f.add_market(market_id=m, initial=100.0, drift=drifts[m], volatility=vols[m])
         if rho:
-            f.set_correlation(0, 1, rho)
+            f.set_correlation(*((0, 1) if c % 2 == 0 else (1, 0)), rho)
         p = [np.asarray(f.get_fundamental_prices(market_id=m, times=range(T + 1))) for m in range(2)]
         r = [np.diff(np.log(x)) for x in p]
         for m in range(2):
